@@ -412,7 +412,8 @@ def _scaling_classes(prog):
     """scaling classes the factory can construct: every class of nptdms.scaling instantiated (directly or through
     from_properties) by _get_channel_scaling or the module helpers it calls"""
     from .sem import module_region
-    fi = prog.func("scaling._get_channel_scaling")
+    from .rules_dispatch import find_scaling_builder
+    fi = find_scaling_builder(prog)
     out = []
     for f in module_region(prog, fi):
         nodes = list(walk_body(f.node))
@@ -762,8 +763,16 @@ def dt4(ctx, R):
                 isinstance(x, ast.Call) and isinstance(x.func, ast.Attribute) and x.func.attr == "newbyteorder" for x in ast.walk(v))
             if not involved:
                 continue
-            conv = isinstance(v, ast.Call) and isinstance(v.func, ast.Attribute) and v.func.attr == "astype" and v.args \
-                and "newbyteorder" not in unparse(v.args[0])
+            def is_astype(e):
+                return isinstance(e, ast.Call) and isinstance(e.func, ast.Attribute) and e.func.attr == "astype" and e.args \
+                    and "newbyteorder" not in unparse(e.args[0])
+            conv = is_astype(v)
+            if not conv and isinstance(v, ast.Call):
+                # the conversion behind a helper: a function all of whose results are <its argument>.astype(<plain dtype>)
+                from .flow import resolve_call
+                tg = resolve_call(prog, fi, fi.cls, v)
+                rets = [x for g, _k in tg for x in walk_body(g.node) if isinstance(x, ast.Return)]
+                conv = bool(tg) and bool(rets) and all(is_astype(x.value) for x in rets)
             key = "%s::return %s" % (q, unparse(v)[:60])
             R.check(conv, key, fi.where(r), "converted to the native-order dtype before returning",
                     "an array typed with the segment's byte order is returned as is: chunk streams hand it out directly, so for big-endian "
@@ -773,7 +782,19 @@ def dt4(ctx, R):
 @rule("LN1", "len(channel) and the lazy offset index count values through one function", floor=3)
 def ln1(ctx, R):
     prog = ctx.prog
-    nsv = prog.func("reader._number_of_segment_values")
+    try:
+        nsv = prog.func("reader._number_of_segment_values")
+    except AnchorMissing:
+        # renamed / turned into a method: the one function that multiplies values per chunk by the chunk count and knows about
+        # truncated final chunks
+        cands = [f for f in prog.functions.values() if any(isinstance(n, ast.Attribute) and n.attr == "final_chunk_lengths_override" for n in ast.walk(f.node))
+                 and any(isinstance(n, ast.BinOp) and isinstance(n.op, ast.Mult) and "number_values" in unparse(n) and "num_chunks" in unparse(n)
+                         for n in ast.walk(f.node))]
+        if len(cands) != 1:
+            R.unrecognised("values of an object in a segment", prog.module("reader").relpath, "the function that counts an object's values in a segment "
+                           "(values per chunk * chunks, truncated final chunk) was not recognised")
+            return
+        nsv = cands[0]
     um = prog.func("reader.TdmsReader._update_object_metadata")
     bi = prog.func("reader.TdmsReader._build_index")
     # every increment of num_values is the funnel applied to the current object and segment
@@ -820,6 +841,9 @@ def ln1(ctx, R):
         shown = val
         for a, b_, g in vals:
             b = match(("call", nsv.qual, (W("obj"), W("seg")), ()), a) if a is not None else None
+            if b is None and a is not None and nsv.cls is not None:
+                # the funnel as a method of the segment: <segment>.funnel(<object>)
+                b = match(("method", nsv.name, W("seg"), (W("obj"),), ()), a) or match(("call", nsv.qual, (W("seg"), W("obj")), ()), a)
             ok_ = b is not None and b["obj"][0] in ("bv", "param", "item") and mentions(b_, b["obj"])
             if not ok_ and b is not None and b["obj"][0] == "param" and g is f and f.cls is not None and b_ in (("param", "self"), ("name", "self")):
                 # a method of the metadata object that is given the segment object: which metadata object it is called on is the
